@@ -72,22 +72,22 @@ type seqWorld struct {
 	depth    int
 	maxDepth int
 	hist     string
-	model   map[string]*token.Stateful // by REAL token name
-	garbage bool                       // the file is not a valid token stream
-	slot    string                     // tag remembered from an earlier successful get
-	hasSlot bool
+	model    map[string]*token.Stateful // by REAL token name
+	garbage  bool                       // the file is not a valid token stream
+	slot     string                     // tag remembered from an earlier successful get
+	hasSlot  bool
 	// ver counts the changes of the token file (any change of its bytes, by
 	// the server or behind its back); slotVer is its value when the slot tag
 	// was read.  Staleness of the remembered tag is judged by these, never by
 	// comparing tags, so that a tag which fails to change is noticed.
 	ver, slotVer int
-	revoked map[string]string // real name -> "delete" | "sweep"
+	revoked      map[string]string // real name -> "delete" | "sweep"
 	// HTTP driver: logical name -> real (server-chosen) name, and every real
 	// name ever bound -> a stable alias ("T1#2" = second incarnation of T1)
-	bind    map[string]string
-	alias   map[string]string
-	gen     map[string]int
-	outcome string
+	bind     map[string]string
+	alias    map[string]string
+	gen      map[string]int
+	outcome  string
 	restores int // external restorations with an old mtime so far
 }
 
@@ -900,4 +900,3 @@ func runSeq(res *core.Result, http bool, shard, shards int) {
 	sub.Bound += fmt.Sprintf(", %d-letter alphabet, first letter partitioned over %d processes (states are summed over processes: a state reached under several first letters is counted once per process)", len(cfg.Fresh().(*seqWorld).alpha), shards)
 	res.AddSub(sub)
 }
-
